@@ -24,4 +24,7 @@ CASES = [
          new="            subscription = source.subscribe(observer, scheduler=scheduler)\n            if count == 1:")]),
     dict(expect="fire", desc="seed C24-r2/2: auto_connect tears the connection down when its subscribers leave", names="N3-auto-connect", edits=[dict(file="reactivex/observable/connectableobservable.py",
          old="                count[0] -= 1\n                is_connected[0] = False", new="                count[0] -= 1\n                if count[0] == 0 and connectable_subscription[0] is not None:\n                    connectable_subscription[0].dispose()\n                    connectable_subscription[0] = None\n                is_connected[0] = False")]),
+    dict(expect="silent", desc="ref_count: connect before subscribing the observer (decision and connect both early)", edits=[dict(file="reactivex/operators/connectable/_refcount.py",
+         old="            should_connect = count == 1\n            subscription = source.subscribe(observer, scheduler=scheduler)\n            if should_connect:\n                connectable_subscription = source.connect(scheduler)",
+         new="            first = count == 1\n            subscription = source.subscribe(observer, scheduler=scheduler)\n            if first:\n                connectable_subscription = source.connect(scheduler)")]),
 ]
